@@ -720,7 +720,7 @@ impl Monitor for C08 {
          macros, ## paste, parameters named like variables; uses adjacent to operators, inside longer identifiers (K0_x, xK0, K01, _K0, K0_), inside \
          string literals, as arguments of other macros, nested calls, parenthesised comma arguments; -D NAME and -D NAME=VALUE. Each program is \
          compiled as written and after expansion by an independent token-level expander; declarations, emitted text, call tree must be identical; \
-         -D is also compared with a #define at the top. non-trivial = the reference expansion changed the text"
+         -D is also compared with a #define at the top. Also: parameters named like earlier macros, bodies naming a macro defined on the next line, a never-selected group with #undef / #define of the macro just defined, -D NAME=NAME_longer, a character constant as last token of a body. non-trivial = the reference expansion changed the text"
             .into()
     }
     fn assumptions(&self) -> Vec<String> {
